@@ -7,7 +7,7 @@ CONSTANTS
   MCMax = {1, 2}
   MCIds = 5
   MCBodies = {"none"}
-  MCEnv = {"settings", "cancel", "pingack", "closebody"}
+  MCEnv = {"settings", "settings_other", "cancel", "pingack", "closebody"}
   MCStrict = {TRUE, FALSE}
 INVARIANTS TypeOK IdsOdd InFlightIsLive NoSecondCopy
 PROPERTIES GrowWithinLimit QuietAfterGoAway IncreasingIds
